@@ -566,7 +566,18 @@ func c17Worker(w *core.WorkerCtx) {
 	}
 	defer h.Close()
 	mkTrx := func(from *ledger.Actor, to string, i int) *transaction.Transaction {
-		t := ledger.ForgeTrx(from, to, fmt.Sprintf("awaiting %d", i), []byte("contract"), spice.Melange{Currency: uint64(i % 3)}, time.Now().Add(-time.Minute))
+		// stamped a minute ago, ten days ago, a few seconds ahead or a day ahead of this node's clock (the clocks of the
+		// clients that sign are not the node's)
+		at := time.Now().Add(-time.Minute)
+		switch i % 6 {
+		case 2:
+			at = time.Now().Add(-240 * time.Hour)
+		case 4:
+			at = time.Now().Add(5 * time.Second)
+		case 5:
+			at = time.Now().Add(26 * time.Hour)
+		}
+		t := ledger.ForgeTrx(from, to, fmt.Sprintf("awaiting %d", i), []byte("contract"), spice.Melange{Currency: uint64(i % 3)}, at)
 		return &t
 	}
 	seq := 0
